@@ -840,7 +840,7 @@ val ai_term : ('a1, 'a2) assign_inter -> 'a1 term
 
 type ('vS, 'vr) psol = { next_gidx : nat; level : nat;
                          assignments : (pkg0 * ('vS, 'vr) pa) list;
-                         queue : (pkg0 * z) list; changed : nat;
+                         queue : (pkg0 * (z * 'vS)) list; changed : nat;
                          backtracked : bool }
 
 val ps_empty : ('a1, 'a2) psol
@@ -874,7 +874,7 @@ val add_derivation :
 
 val pick_candidates : ('a1, 'a2) psol -> (pkg0 * 'a1) list
 
-val queue_max : (pkg0 * z) list -> z option
+val queue_max : (pkg0 * (z * 'a1)) list -> z option
 
 val drop_while_gt : nat -> 'a1 dated list -> 'a1 dated list
 
@@ -1051,16 +1051,16 @@ type ('vS, 'vr) outcome =
 | OPickNotMax of nat * pkg0
 
 val do_prioritize :
-  ('a1, 'a2) vSOps -> (pkg0 * 'a1) list -> (pkg0 * z) list -> ('a1, 'a2)
-  event list -> nat -> (((pkg0 * z) list * ('a1, 'a2) event list) * nat,
-  ('a1, 'a2) outcome) sum
+  ('a1, 'a2) vSOps -> (pkg0 * 'a1) list -> (pkg0 * (z * 'a1)) list -> ('a1,
+  'a2) event list -> nat -> (((pkg0 * (z * 'a1)) list * ('a1, 'a2) event
+  list) * nat, ('a1, 'a2) outcome) sum
 
 val extract_solution : ('a1, 'a2) psol -> (pkg0 * 'a2) list res
 
 val added_has :
   ('a1 -> 'a1 -> bool) -> (pkg0 * 'a1) list -> pkg0 -> 'a1 -> bool
 
-type 'vS pick_info = ((pkg0 * 'vS) list * (pkg0 * z) list) * nat
+type 'vS pick_info = ((pkg0 * 'vS) list * (pkg0 * (z * 'vS)) list) * nat
 
 val undecided_positive : ('a1, 'a2) psol -> (pkg0 * 'a1) list
 
